@@ -81,6 +81,7 @@ def regsDiff (mask : Byte) (g s : Regs) : List String :=
     Returns violation tags `C01:..`, `C02:..`, `C03:..`, `C11:..`; `skip` when the specification does
     not constrain the case (invalid BCD) or the run has more than one instruction. -/
 def specCheck (model : CpuModel) (r0 : Regs) (mem0 : List (Addr × Byte)) (g : GoResult) : List String × String :=
+  if g.kind == "hostcrash" then (["C11:hostcrash"], "crash") else
   let bus0 : SBus := { mem := mem0, trace := #[], budget := 1000 }
   -- collect the specification tree's store masks while running it
   match (Spec.step model r0).run sbus r0 bus0 with
@@ -176,6 +177,56 @@ def handleRun (line : String) : String :=
       let d := if diffs.isEmpty then "agree" else "DIFF " ++ ",".intercalate diffs
       let v := if viol.isEmpty then "specok" else "VIOL " ++ ",".intercalate viol
       s!"{d} | {v} | {cls}"
+  | _ => "bad"
+
+
+/-- specification-level run: execute `Spec.step` until BRK, summing the cycles of the non-halting
+    instructions (don't-care masks are ignored: the generated programs avoid them) -/
+def specRun (model : CpuModel) : Nat → Regs → SBus → Nat → Option (Regs × SBus × Nat)
+  | 0, _, _, _ => none
+  | fuel + 1, r, b, acc =>
+    match (Spec.step model r).run sbus r b with
+    | (.ok (some (out, r')), b') => if out.halt then some (r', b', acc) else specRun model fuel r' b' (acc + out.cycles)
+    | _ => none
+
+/-- `runs M X | mem | pc:reset ... => kind:cycles ...` -/
+def handleRuns (line : String) : String :=
+  let (req, res) := splitOnce line "=>"
+  match req.splitOn "|" with
+  | [hd, memS, runsS] =>
+    match words hd with
+    | [_, m, x] =>
+      let parsed : Option (CpuModel × Byte × List (Addr × Byte) × List (Addr × Bool)) := do
+        let model ← if m == "0" then some CpuModel.m6502 else if m == "1" then some CpuModel.m65C02 else none
+        let x ← parseByte x
+        let mem ← (words memS).mapM fun w => match w.splitOn "=" with
+          | [a, v] => do some (← parseAddr a, ← parseByte v)
+          | _ => none
+        let runs ← (words runsS).mapM fun w => match w.splitOn ":" with
+          | [a, r] => do some (← parseAddr a, r == "1")
+          | _ => none
+        some (model, x, mem, runs)
+      match parsed with
+      | none => "bad"
+      | some (model, x, mem, runs) =>
+        let bus0 : SBus := { mem := mem.reverse, trace := #[], budget := 4000 }
+        let regs0 : Regs := ⟨0, 0xFF, 0, x, 0, 0⟩
+        -- the Impl model
+        let (_, outsI) := runs.foldl (fun (acc : Impl.Machine SBus × List String) (pr : Addr × Bool) =>
+          let (stop, m') := Impl.runExt (Generated.opTable model) Generated.consts model sbus 5000 pr.1 pr.2 acc.1
+          (m', acc.2 ++ [s!"{kindOf stop}:{m'.cycles}"])) ({ regs := regs0, cycles := 0, mem := bus0 }, [])
+        -- the specification
+        let (_, outsS) := runs.foldl (fun (acc : (Regs × SBus × Nat) × List String) (pr : Addr × Bool) =>
+          let (r, b, c) := acc.1
+          let c0 := if pr.2 then 0 else c
+          match specRun model 5000 { r with pc := pr.1 } b c0 with
+          | some (r', b', c') => ((r', b', c'), acc.2 ++ [s!"halt:{c'}"])
+          | none => ((r, b, c0), acc.2 ++ ["?"])) ((regs0, bus0, 0), [])
+        let go := words res
+        let d := if go == outsI then "agree" else "DIFF cycles:runs:model=" ++ " ".intercalate outsI
+        let v := if go == outsS || outsS.contains "?" then "specok" else "VIOL C02:runs:spec=" ++ "_".intercalate outsS ++ s!"@model={m}"
+        s!"{d} | {v} | runs"
+    | _ => "bad"
   | _ => "bad"
 
 end Driver
